@@ -219,6 +219,8 @@ class MQTTClient(MQTTTransport):
         try:
             await self._client.__aenter__()
         except MqttError as err:
+            # Don't keep the client that failed to connect, to allow a new attempt.
+            self._client = None
             raise TransportError from err
 
         self._incoming_task = asyncio.create_task(self._handle_incoming())
